@@ -21,7 +21,7 @@ ASSUMPTIONS = ["candidates are registered as data (OperatorImpl with ParamPatter
                "the Python bridge uses; the statically typed register_overload<Op, Impl> front-end produces the same OperatorImpl",
                "the independent unifier (vp/c19.py) is the reading of 'parameters really match the supplied types'",
                "g++-12 -O1 build of the working tree with harness-side shims"]
-FLOORS = {"resolutions": {"quick": 4000, "thorough": 100000}, "families_with_competition": {"quick": 300, "thorough": 8000},
+FLOORS = {"resolutions": {"quick": 4000, "thorough": 100000}, "families_with_competition": {"quick": 300, "thorough": 8000}, "size_hinted_families_with_competition": {"quick": 20, "thorough": 150},
           "ambiguity_errors": {"quick": 20, "thorough": 500}, "no_match_errors": {"quick": 100, "thorough": 3000},
           "orders_compared": {"quick": 2500, "thorough": 60000}, "mirrored_signature_checks": {"quick": 200, "thorough": 400}}
 
@@ -444,6 +444,57 @@ def main(tier, seed, replay):
                             V.append((fam, a, f"selected {w} = {POOL[w]} although the matching candidate {l} = {POOL[l]} is strictly more specific"))
         if len(samples) < 3 and len(matching) >= 2:
             samples.append({"family": {l: POOL[l] for l in fam}, "args": list(a), "outcome": list(first[:3]), "matching_ranks": matching})
+    # 3) calls that PIN sizes (size hints, the C++ side of op[SIZE: Size[n]](...)): hints bind a candidate's size variables in their
+    #     order of first appearance, per candidate. Same self-consistency oracle: the family resolves to the best of the
+    #     candidates that match ALONE with the same hints, in every registration order.
+    HPOOL = {"wide": "TS($T)->TSL(TS($T),%N)", "narrow": "TS(int)->TSL(TS(int),%M)", "fe": "TSL(TS(int),%N)->TS(int)", "ge": "TSL(#E,%M)->#E",
+             "ln": "TSL(TS($T),%K)->TS($T)", "sq": "TSL(TS(int),%N),TSL(TS(int),%N)->TS(int)", "rc": "TSL(TS(int),%R),TSL(TS(int),%C)->TSL(TS(int),%C)",
+             "gg": "TSL(#E,%A),TSL(#E,%B)->#E"}
+    HARGS1 = ["TS(int)", "TS(str)", "TSL(TS(int),2)", "TSL(TS(int),3)", "TSL(TS(int),4)", "TSL(TS(str),2)"]
+    HINTS = ["2", "3", "4", "2,3", "3,3", "3,2"]
+    ar1 = [l for l in HPOOL if len(split_sig(HPOOL[l])[0]) == 1]
+    ar2 = [l for l in HPOOL if len(split_sig(HPOOL[l])[0]) == 2]
+    hf = []
+    for _ in range(250 if tier == "quick" else 2500):
+        pool, k = (ar1, 1) if rng.random() < 0.6 else (ar2, 2)
+        fam = tuple(sorted(rng.sample(pool, rng.choice([2, min(3, len(pool))]))))
+        a = (rng.choice(HARGS1 if rng.random() < 0.3 else HARGS1[:1] + HARGS1[2:5]),) if k == 1 else tuple(rng.choice(HARGS1[2:5]) for _ in range(2))
+        hf.append((fam, a, rng.choice(HINTS)))
+    hf = sorted(set(hf))
+    hs_lines = sorted({(l, a, h) for fam, a, h in hf for l in fam})
+    hs = dict(zip(hs_lines, run_lines(exe, [f"{l}={HPOOL[l]} | {','.join(a)} | {h}" for l, a, h in hs_lines], f"C19.{tier}.{seed}.hs")))
+    hl, hm = [], []
+    for fam, a, h in hf:
+        for o in itertools.permutations(fam):
+            hl.append(";".join(f"{l}={HPOOL[l]}" for l in o) + " | " + ",".join(a) + " | " + h)
+            hm.append((fam, a, h, o))
+    hres = run_lines(exe, hl, f"C19.{tier}.{seed}.hf") if hl else []
+    counters["resolutions"] += len(hl) + len(hs_lines)
+    counters["size_hinted_resolutions"] = len(hl)
+    counters["size_hinted_families_with_competition"] = 0
+    byh = {}
+    for (fam, a, h, o), r in zip(hm, hres):
+        byh.setdefault((fam, a, h), []).append((o, r))
+    for (fam, a, h), outs in byh.items():
+        matching = {l: hs[(l, a, h)][2] for l in fam if hs[(l, a, h)][0] == "ok"}
+        if len(matching) >= 2:
+            counters["size_hinted_families_with_competition"] += 1
+        first = outs[0][1]
+        for o, r in outs[1:]:
+            if (r[0], r[1]) != (first[0], first[1]):
+                V.append((fam, a, f"with sizes pinned to [{h}] resolution depends on registration order: {outs[0][0]} -> {first[:3]}, {o} -> {r[:3]}"))
+                break
+        else:
+            if not matching:
+                if not (first[0] == "err" and first[1] == "nomatch"):
+                    V.append((fam, a, f"sizes pinned to [{h}]: no candidate matches {a} alone, yet the family resolves to {first[:3]}"))
+                continue
+            best = min(matching.values())
+            winners = sorted(l for l, rk in matching.items() if rk == best)
+            if len(winners) == 1 and not (first[0] == "ok" and first[1] == winners[0]):
+                V.append((fam, a, f"sizes pinned to [{h}]: unique best candidate for {a} is {winners[0]} (ranks {matching}) but the family resolves to {first[:3]}"))
+            if len(winners) > 1 and not (first[0] == "err" and first[1] == "ambiguous"):
+                V.append((fam, a, f"sizes pinned to [{h}]: candidates {winners} tie for {a} but the family resolves to {first[:3]}"))
     wall = time.time() - t0
     coverage = {"evaluations": counters["resolutions"], "distinct_nontrivial": len(nontrivial), "rule": RULE, "samples": samples or [{"note": "no competition"}],
                 "monitor_counters": counters, "pool": POOL, "universe": UNIVERSE, "families": len(by_fam)}
